@@ -83,6 +83,27 @@ def item_grammar_rules(ctx, P):
         ctx.ob(P + ".F.parsed-types", f.key, "parse::<syn::Lit> / parse::<syn::Meta>", tys == ["syn::attr::Meta", "syn::lit::Lit"], "%s" % tys)
 
 
+def default_expr_routing_rules(ctx, P):
+    """Default `from_expr`: a literal goes to from_value, an invisible group is transparent, and every
+    other expression form (parenthesised ones included) is rejected.  Shared with C11: the scalar
+    targets do not override from_expr, so "wrong meta form => error" is decided here."""
+    f = ctx.fn(T + "from_expr")
+    if f:
+        v = inner_by_variant(ctx, f)
+        ok_lit = v.get("discr(a1)=Lit") == ["%sfrom_value((a1 as Lit).0.lit)" % T]
+        grp = v.get("discr(a1)=Group") or []
+        ok_grp = len(grp) == 1 and grp[0].startswith("%sfrom_expr((a1 as Group).0.expr" % T)
+        ctx.ob(P + ".E.expr-routing-literal", f.key, "Lit → from_value(&lit.lit)", ok_lit, "%s" % v.get("discr(a1)=Lit"))
+        ctx.ob(P + ".E.expr-routing-group-transparent", f.key, "Group → from_expr(&group.expr)", ok_grp, "%s" % grp)
+        # closed: whatever is neither a literal nor an invisible group is an error
+        REJ = ["core::result::Result::Err{darling_core::error::Error::unexpected_expr_type(a1)}"]
+        others = {k: x for k, x in v.items() if k not in ("discr(a1)=Lit", "discr(a1)=Group")}
+        ctx.ob(P + ".E.expr-routing-otherwise-rejects", f.key, "every other form → unexpected_expr_type(expr)", bool(others) and all(x == REJ for x in others.values()),
+               "arms other than Lit / Group: %s" % {k: [y[:100] for y in x] for k, x in others.items()})
+        if P == "C15":
+            check_dispatcher(ctx, f)
+
+
 def run(ctx):
     item_grammar_rules(ctx, "C15")
     f = ctx.fn("darling_core::ast::data::NestedMeta::parse_meta_list")
@@ -142,18 +163,7 @@ def run(ctx):
         ok = len(res) == 1 and any("syn::error::Error" in a for a in (mir.callee_info(res[0][1]).get("targs") or []) + [mir.callee_info(res[0][1]).get("fn_with_args") or ""])
         ctx.ob("C15.G.bad-list-is-error", f.key, "parse_meta_list(..)?", ok, "%s" % [mir.callee_info(t).get("fn_with_args") for _, t in res])
         check_dispatcher(ctx, f)
-    f = ctx.fn(T + "from_expr")
-    if f:
-        v = inner_by_variant(ctx, f)
-        ok_lit = v.get("discr(a1)=Lit") == ["%sfrom_value((a1 as Lit).0.lit)" % T]
-        grp = v.get("discr(a1)=Group") or []
-        ok_grp = len(grp) == 1 and grp[0].startswith("%sfrom_expr((a1 as Group).0.expr" % T)
-        oth = [x for k, x in v.items() if "not-in" in k]
-        ok_oth = oth == [["core::result::Result::Err{darling_core::error::Error::unexpected_expr_type(a1)}"]]
-        ctx.ob("C15.E.expr-routing-literal", f.key, "Lit → from_value(&lit.lit)", ok_lit, "%s" % v.get("discr(a1)=Lit"))
-        ctx.ob("C15.E.expr-routing-group-transparent", f.key, "Group → from_expr(&group.expr)", ok_grp, "%s" % grp)
-        ctx.ob("C15.E.expr-routing-otherwise-rejects", f.key, "_ → unexpected_expr_type(expr)", ok_oth, "%s" % oth)
-        check_dispatcher(ctx, f)
+    default_expr_routing_rules(ctx, "C15")
     f = ctx.fn(T + "from_value")
     if f:
         v = inner_by_variant(ctx, f)
